@@ -148,12 +148,33 @@ def sort_rules(progs):
             whole = {'i': f.get('inits'), 'b': body}
             pos = A.eval_order(body, f.get('inits'))
             order = sorted([n for n in walk(whole) if n.get('k') in ('call', 'construct') and id(n) in pos], key=lambda n: pos[id(n)])
-            sorts = [n for n in order if A.callee(n) in ('std::sort', 'std::stable_sort')]
-            dedup = [n for n in order if A.cshort(n) == 'eraseDuplicates']
+            def helper_effects(n, depth=0):
+                """What a call contributes to the invariant: directly, or through a private FlatSet helper whose body does it
+                unconditionally (a clean-up that extracts `sort + eraseDuplicates` into one member keeps the effect)."""
+                out = set()
+                if A.callee(n) == 'std::stable_sort':
+                    out.add('sort-stable')
+                elif A.callee(n) == 'std::sort':
+                    out.add('sort-unstable')
+                elif A.cshort(n) == 'eraseDuplicates':
+                    out.add('dedup')
+                elif A.callee(n) == 'std::inplace_merge':
+                    out.add('merge')
+                elif depth < 2 and n.get('amc') and A.callee(n).startswith(FS + '::') and n.get('fn') in prog.fns and prog.fns[n['fn']].get('body') is not None \
+                        and prog.fns[n['fn']]['id'] != f['id']:
+                    g = prog.fns[n['fn']]
+                    Pg = A.Parents(g['body'])
+                    for c in A.calls(g['body']):
+                        if not Pg.guards(c) and not Pg.in_loop(c):
+                            out |= helper_effects(c, depth + 1)
+                return out
+            eff = {id(n): helper_effects(n) for n in order}
+            sorts = [n for n in order if eff[id(n)] & {'sort-stable', 'sort-unstable'}]
+            dedup = [n for n in order if 'dedup' in eff[id(n)]]
             for s in sorts:
-                followed = any(pos[id(d)] > pos[id(s)] for d in dedup)
+                followed = any(pos[id(d)] >= pos[id(s)] for d in dedup)
                 if followed:
-                    ok = A.callee(s) == 'std::stable_sort'
+                    ok = 'sort-unstable' not in eff[id(s)]
                     stable.instance('%s|%s' % (f['key'], rel(prog.site(f, s))), {'function': f['pname'][:140], 'sort': A.callee(s), 'stable': ok})
                     if not ok:
                         stable.add(Finding('STABLE', '%s' % f['key'], prog.site(f, s),
@@ -190,10 +211,10 @@ def sort_rules(progs):
                         bulk.append(n)
             for b in bulk:
                 p0 = pos.get(id(b), -1)
-                has_sort = any(pos[id(s)] > p0 for s in sorts)
+                has_sort = any(pos[id(s_)] > p0 for s_ in sorts)
                 has_dedup = any(pos[id(d)] > p0 for d in dedup)
                 appended = b.get('k') == 'call' and A.cshort(b) in ('insert', 'append')
-                has_merge = (not appended) or any(A.callee(n) == 'std::inplace_merge' and pos[id(n)] > p0 for n in order)
+                has_merge = (not appended) or any('merge' in eff[id(n)] and pos[id(n)] > p0 for n in order)
                 # all unconditional
                 P = A.Parents(whole)
                 uncond = all(not P.guards(x) for x in sorts + dedup)
@@ -603,12 +624,15 @@ def ss_dup(progs):
             P = A.Parents(body)
             order = A.eval_order(body, f.get('inits'))
 
+            lvals = A.local_values(body)
+
             def has_scan(node, depth=0):
                 for x in walk(node):
                     if x.get('k') == 'call' and A.cshort(x) in SCAN:
                         return True
-                    if depth < 3 and x.get('k') == 'ref' and x.get('dk') == 'local' and linit.get(x.get('did')) and linit[x['did']][0] is not None:
-                        if has_scan(linit[x['did']][0], depth + 1):
+                    if depth < 3 and x.get('k') == 'ref' and x.get('dk') == 'local':
+                        # the local may have been initialised or assigned from the scan (`found = std::none_of(...)`)
+                        if any(has_scan(v, depth + 1) for v in lvals.get(x.get('did'), [])):
                             return True
                 return False
             for a in adds:
@@ -661,8 +685,30 @@ def iter_alt(progs):
                             for n in walk(body):
                                 if n.get('k') == 'ref' and n.get('did') == did and any(a.get('k') == 'ret' for a, _ in P.ancestors(n)):
                                     uses.append(n)
+                def is_retest(cond, li):
+                    return any((x.get('k') == 'call' and (A.callee(x) == SS + '::isSmall' or (A.cshort(x) == 'empty' and member_of(x, li) == ('this', '_set'))))
+                               for x in walk(cond))
+
+                def helper_retests(u):
+                    """u is handed to a SmallSet member whose body only uses that parameter under a re-test of the state (the fix-up was
+                    extracted into a private helper)."""
+                    for a, slot in P.ancestors(u):
+                        if a.get('k') == 'call' and a.get('amc') and A.callee(a).startswith(SS + '::') and a.get('fn') in prog.fns:
+                            g = prog.fns[a['fn']]
+                            if g.get('body') is None:
+                                return False
+                            idx = next((i for i, x in enumerate(a.get('args', [])) if any(y is u for y in walk(x))), None)
+                            if idx is None:
+                                return False
+                            Pg = A.Parents(g['body'])
+                            lg = A.local_inits(g['body'])
+                            refs = [n for n in walk(g['body']) if n.get('k') == 'ref' and n.get('dk') == 'param' and n.get('idx') == idx]
+                            return bool(refs) and all(any(is_retest(c, lg) for c, t in Pg.guards(r)) for r in refs)
+                        if a.get('k') in ('ret', 'decl', 'block'):
+                            break
+                    return False
                 for u in uses:
-                    ok = False
+                    ok = helper_retests(u)
                     for cond, truth in P.guards(u):
                         retest = any((x.get('k') == 'call' and (A.callee(x) == SS + '::isSmall' or (A.cshort(x) == 'empty' and member_of(x, linit) == ('this', '_set'))))
                                      for x in walk(cond))
@@ -715,6 +761,25 @@ def alt_sib(progs):
                     rr.add(Finding('ALT-SIB', '%s' % f['key'], prog.site(f, n),
                                    'the branch selected for the inline state consults %s and the one for the large state %s: the alternatives are crossed'
                                    % (sorted(ma), sorted(mb)), where=f['pname'], unit=prog.uname))
+            # a public const member that consults only one of the two containers outside any test of the state gives the answer of a
+            # container that is empty (or stale) in the other state; consulting both (empty(), max_size()) is symmetric and fine
+            if f.get('access') == 'public' and short(f['name']) not in ('isSmall', 'key_comp', 'value_comp', 'get_allocator'):
+                Pu = None
+                ung = []
+                for c in A.calls(body):
+                    m = member_of(c, linit)
+                    if not m or m[0] != 'this':
+                        continue
+                    Pu = Pu or A.Parents(body)
+                    tested = any(any(x.get('k') == 'call' and A.callee(x) == SS + '::isSmall' for x in walk(cond)) for cond, truth in Pu.guards(c))
+                    rr.instance('%s|%s|%s' % (f['key'], m[1], rel(prog.site(f, c))), {'function': f['pname'][:140], 'consults': m[1] + '.' + A.cshort(c), 'under_state_test': tested})
+                    if not tested:
+                        ung.append((m[1], c))
+                if ung and len({w for w, _ in ung}) == 1:
+                    w, c = ung[0]
+                    rr.add(Finding('ALT-SIB', '%s|unguarded|%s' % (f['key'], w), prog.site(f, c),
+                                   'only %s is consulted (%s), outside any test of the state: in the other state that container is empty (or stale) and the '
+                                   'answer is wrong' % (w, A.cshort(c)), where=f['pname'], unit=prog.uname))
     return rr
 
 
@@ -1144,4 +1209,69 @@ def node_pos(progs):
                 rr.add(Finding('NODE-POS', '%s' % f['key'], f['loc'],
                                'on some path insert(node) performs the insertion but does not store the returned position into the result: a refused node '
                                'reports end() although an equivalent element exists', where=f['pname'], unit=prog.uname))
+    return rr
+
+
+# ------------------------------------------------------------------------------ TRANSPARENT-SIB (not wired: see DESIGN 10.9 - two
+# overloads may legitimately be implemented differently, so body equality fires on behaviour-preserving edits)
+_SHAPE_KEEP = ('k', 'op', 'name', 'v', 'method', 'arrow', 'field', 'dk', 'idx', 'null', 'all')
+_SHAPE_CHILD = ('s', 'args', 'obj', 'sub', 'lhs', 'rhs', 'base', 'c', 'a', 'b', 'then', 'else', 'e', 'init', 'vars', 'body', 'inc', 'handlers', 'cond', 'var', 'placement')
+
+
+def shape_canon(n, locals_=None):
+    """Structure of a body without types, locations and identities: what two overloads that differ only in a parameter type share."""
+    locals_ = {} if locals_ is None else locals_
+    if isinstance(n, list):
+        return [shape_canon(x, locals_) for x in n]
+    if not isinstance(n, dict):
+        return n
+    s = A.strip(n) if n.get('k') == 'cast' else n
+    if s is not n and isinstance(s, dict):
+        return shape_canon(s, locals_)
+    out = {}
+    for k_ in _SHAPE_KEEP:
+        if k_ in n:
+            out[k_] = n[k_]
+    if n.get('k') == 'ref' and n.get('dk') == 'local':
+        out['local'] = locals_.setdefault(n.get('did'), len(locals_))
+        out.pop('name', None)
+    if n.get('k') == 'ref' and n.get('dk') == 'param':
+        out.pop('name', None)
+    if 'did' in n and n.get('k') != 'ref':
+        out['local'] = locals_.setdefault(n.get('did'), len(locals_))
+    if n.get('k') == 'construct' and len(n.get('args', [])) == 1 and not n.get('amc'):
+        pass
+    for k_ in _SHAPE_CHILD:
+        if k_ in n and isinstance(n[k_], (dict, list)):
+            out[k_] = shape_canon(n[k_], locals_)
+    return out
+
+
+def transparent_sib(progs):
+    import json as _json
+    rr = RuleResult('TRANSPARENT-SIB', 'every heterogeneous-key overload (const K&) of a lookup has the same body as the overload taking the element type: a '
+                                       'transparent lookup performs exactly the search its sibling performs')
+    for prog in progs:
+        groups = {}
+        for f in prog.amc_functions():
+            cls = FS if in_class(f, FS) else SS if in_class(f, SS) else None
+            if cls is None or f.get('body') is None or f.get('kind') != 'method' or len(f.get('params', [])) != 1:
+                continue
+            groups.setdefault((f.get('cls'), short(f['name']), bool(f.get('const'))), []).append(f)
+        for (cls_, name, _c), fs in groups.items():
+            rec = prog.record(cls_ or '')
+            elem = ((rec or {}).get('targs') or [None])[0]
+            plain = [f for f in fs if not f.get('targs') and elem and norm(f['params'][0]['t']) == elem]
+            hetero = [f for f in fs if f.get('targs') and elem and norm(f['params'][0]['t']) != elem]
+            if not plain or not hetero:
+                continue
+            ref = _json.dumps(shape_canon(plain[0]['body']), sort_keys=True)
+            for h in hetero:
+                same = _json.dumps(shape_canon(h['body']), sort_keys=True) == ref
+                rr.instance('%s|%s|%s' % (h['key'], h['params'][0]['t'][:40], prog.uname), {'function': h['pname'][:140], 'sibling': plain[0]['pname'][:140], 'same_shape': same})
+                if not same:
+                    rr.add(Finding('TRANSPARENT-SIB', '%s' % h['key'], h['loc'],
+                                   'the heterogeneous-key overload of %s does not have the body of the overload taking the element type: the two lookups no longer '
+                                   'perform the same search (different result for equivalent keys, or a different number of comparisons)' % name,
+                                   where=h['pname'], unit=prog.uname))
     return rr
